@@ -1,5 +1,6 @@
 import ClientGoVerif.Model.VLog
 import ClientGoVerif.Model.ArtNode
+import ClientGoVerif.Model.ArtTree
 open CGV CGV.MemBuf
 
 /-! line-protocol driver of the C08 mechanism model (stateful; `reset` restores the initial state) -/
@@ -52,6 +53,7 @@ structure DS where
   stageViews : List View := []           -- bottom first
   snapBase : List Item := []             -- values visible when stage 1 was opened
   node : ArtNode.Node Nat := ArtNode.Node.empty   -- one inner node of the radix tree (n* ops)
+  tree : ArtTree.Tree := ArtTree.Tree.empty       -- the radix tree of the ART buffer (structure: t* ops)
 
 def viewOf (m : VLog) : View :=
   { items := sortItems (m.iterItems [] [] true), len := m.len, size := m.size }
@@ -151,7 +153,11 @@ def runPlain (d : DS) (op : Op) (wf : Bool) : DS × String :=
   let q' := VLog.seqStep d.q d.m op
   let before : Unit → View := fun _ => viewOf d.m
   let (m', out) := d.m.step op
-  let d' := { d with m := m', q := q' }
+  -- a write that passes the key / entry checks goes through traverse(key, insert = true): the key gets its leaf
+  let tree' := match op with
+    | .set k _ _ | .del k _ | .upd k _ => if q'.write ≠ d.q.write then ArtTree.insert d.tree k else d.tree
+    | _ => d.tree
+  let d' := { d with m := m', q := q', tree := tree' }
   match op with
   | .staging =>
     let d' := { d' with stageViews := d.stageViews ++ [before ()] }
@@ -191,6 +197,19 @@ partial def stepWords (d : DS) (w : List String) : DS × String :=
           (pruneCps { d with m := m', q := q' }, undoVerdict "revert" cv before (viewOf m'))
         else (d, "bad-cp")
       | _, _ => (d, "bad-cp")
+  | ["rbtchk"] => (d, "ok")
+  | ["rbtkeys"] =>
+    -- the red-black tree holds one node per key ever written, in key order: the same key set as the radix tree
+    let l := ArtTree.keys d.tree
+    (d, l.foldl (fun acc k => acc ++ " " ++ showVal k) s!"{l.length}:")
+  | ["tdump"] => (d, ArtTree.dumpT d.tree)
+  | ["tsearch", k] =>
+    match parseBytesTok k with
+    | some k => (d, if (ArtTree.search d.tree k).isSome then "found" else "none")
+    | none => (d, "bad-op")
+  | ["tkeys", r] =>
+    let l := if r == "1" then (ArtTree.keys d.tree).reverse else ArtTree.keys d.tree
+    (d, l.foldl (fun acc k => acc ++ " " ++ showVal k) s!"{l.length}:")
   | ["nreset"] => ({ d with node := ArtNode.Node.empty }, "ok")
   | ["nadd", c, id] =>
     match parseBytesTok c, id.toNat? with
